@@ -77,8 +77,8 @@ AOptX == [AOpt EXCEPT !.simple = {IncA, [k |-> "unsup", u |-> "clo-loopvar", id 
 AByX == [ABy EXCEPT !.simple = {IncA, EffX([k |-> "pk", n |-> "a"]),
                                 EffX([k |-> "idi", n |-> "a"]), EffX([k |-> "unn", n |-> "a"]), EffX([k |-> "perr", n |-> "a"]), EffX([k |-> "vari", n |-> "a"]), EffX([k |-> "idg", n |-> "a"]), EffX([k |-> "ln"]), EffX([k |-> "cnv", n |-> "a"]), EffX([k |-> "gets"])}]
 \* constructs outside the supported subset (C12): a small control alphabet plus exactly one such construct
-UKinds == {"lbreak", "lcont", "goto", "select", "selbrk", "defer", "fallyield", "ifinit", "rparr", "rfunc", "rtparam",
-           "clo-lbreak", "clo-goto", "clo-select", "clo-defer", "clo-rfunc", "clo-rparr", "clo-fall"}
+UKinds == {"lbreak", "lcont", "goto", "select", "selbrk", "defer", "fallyield", "ifinit", "rparr", "rfunc", "rtparam", "lrange",
+           "clo-lbreak", "clo-goto", "clo-select", "clo-defer", "clo-rfunc", "clo-rparr", "clo-fall", "clo-selbrk", "clo-lrange"}
 AUnsup == [simple |-> {Eff, Y(VarA)} \cup {[k |-> "unsup", u |-> u, id |-> 0] : u \in UKinds},
            inits |-> {None}, posts |-> {None, Y(VarA)}, conds |-> {T0}, ifinits |-> {None},
            kinds |-> {"if", "for", "switch"}, jumps |-> {"break", "continue", "return"}, ranges |-> {}]
@@ -110,6 +110,9 @@ Ranges == {RangeHdr(kd, "var", f[1], f[2]) : kd \in {"slice", "array", "string"}
      \cup {RangeHdr(kd, "var", "asg", "idx") : kd \in {"slice", "array"}}
      \cup {RangeHdr(kd, "call", "def", "def") : kd \in {"slice", "array", "string"}}
      \cup {RangeHdr(kd, "call", "def", "none") : kd \in {"int", "chan"}}
+     \* the operand has a NAMED type (type strT string, ...): same meaning as the underlying type
+     \cup {RangeHdr(kd, "named", "def", "def") : kd \in {"slice", "array", "string"}}
+     \cup {RangeHdr(kd, "named", "def", "none") : kd \in {"int", "chan"}}
 Mut(op, j) == [k |-> "mut", op |-> op, j |-> j]
 VarK == [k |-> "var", n |-> "k"]
 VarV == [k |-> "var", n |-> "v"]
